@@ -23,6 +23,17 @@ let unlist (s : string) : string list =
   if s = "-" then [] else List.map unhex (String.split_on_char ',' s)
 let hexlist (l : string list) : string = if l = [] then "-" else String.concat "," (List.map hex l)
 
+let rec coq_string_of (s : string) (i : int) : M.string =
+  if i >= String.length s then M.EmptyString else M.String (ascii_of_char s.[i], coq_string_of s (i + 1))
+let ocaml_of_coq_string (s : M.string) : string =
+  let b = Buffer.create 1024 in
+  let rec go = function M.EmptyString -> () | M.String (a, r) -> Buffer.add_char b (char_of_ascii a); go r in
+  go s; Buffer.contents b
+let pairs (s : string) : (M.string * bool) list =
+  if s = "-" then [] else
+  List.map (fun p -> match String.split_on_char ':' p with
+                     | [h; d] -> (coq_string_of (unhex h) 0, d = "1")
+                     | _ -> failwith "bad pair") (String.split_on_char ',' s)
 let t0 = M.t0
 
 let line_of (l : string) : string =
@@ -51,6 +62,10 @@ let line_of (l : string) : string =
        | M.Err (M.EUnknownLicense (w, o)) -> Printf.sprintf "R unk %d %s" (int_of_nat o) (hex (string_of_str w))
        | M.Err (M.EExpectedId o) -> Printf.sprintf "R eid %d" (int_of_nat o)
        | M.Err _ -> "R other" | M.Panic -> "R PANIC" | M.Fuel -> "R FUEL")
+  | ["G"; k; ps] ->
+      let j = pairs ps in
+      let f = (match k with "L" -> M.gen_licenses_file j | "D" -> M.gen_deprecated_file j | _ -> M.gen_exceptions_file j) in
+      "G " ^ hex (ocaml_of_coq_string f)
   | _ -> "? " ^ l
 
 let () =
